@@ -174,7 +174,7 @@ def _build_exprs(world, fspecs, cspecs):
 EXCL_RC1_FUNCS = "two unlabeled functions of the same name in one select list (known finding: duplicate detection skipped, key answers with another column)"
 EXCL_RC1_GENLIKE = "explicit label shaped like a generated / de-duplicated label (anon_1, a_1): may collide with one (known finding: duplicate detection skipped)"
 EXCL_RC2_UNARY = "unlabeled unary minus over a column that is also selected (known finding: both share one result-map entry, column object lookup raises Ambiguous)"
-EXCL_RC3_TQ = "explicit label equal to the legacy tablename_colname of another selected column (known finding: raises Ambiguous)"
+EXCL_RC3_TQ = "result key / explicit label equal to the legacy tablename_colname of another selected column (known finding: raises Ambiguous)"
 EXCL_RC1_TEXTNAME = "text().columns(name=type) where the SQL returns that name more than once (known finding: duplicate detection skipped)"
 
 
@@ -205,6 +205,11 @@ def _known_exclusions_simple(recs, case, info):
         if r["label"] is not None and r["label"] in tqs and tqs[r["label"]] != {i}:
             trig.append(EXCL_RC3_TQ)
             break
+    else:
+        # two different derived-table columns whose .name is equal (the inner select de-duplicated them as a, a_1):
+        # both carry the same legacy tablename_colname
+        if any(len({recs[i]["colid"] for i in idxs}) > 1 for idxs in tqs.values()):
+            trig.append(EXCL_RC3_TQ)
     if not trig:
         return
     if case.get("pinned"):
@@ -294,11 +299,12 @@ def _verify(result, objs, names, expected, case, classes, info, ordered=True, wh
         for s in set(keys):
             pos = [p for p, kname in enumerate(keys) if kname == s]
             res = _lookup(row, s)
-            softpos = [p for p, ss in enumerate(soft) if s in ss and p not in pos]
+            softpos = [p for p in range(n) if p not in pos and (s in soft[p] or s in names[p])]
             if softpos:
-                # the name is also the name of a positional text column bound to another position: raising is
-                # the safe answer; an answer must be one of the columns carrying the name
-                classes.add("text-positional-name-clash")
+                # the name is also a natural name of another position (its column name while the key was truncated /
+                # prefixed, or a positional text column bound under that name): raising is the safe answer; an answer
+                # must be one of the columns carrying the name
+                classes.add("result-key-is-also-natural-name-elsewhere")
                 if res[0] == "ambiguous" or (res[0] == "val" and (len(pos) == 1 or info.get("raw_text_names")) and res[1] in [exp[p] for p in pos + softpos]):
                     continue
                 raise Violation(cfn("string-key/positional-name-clash-wrong-value", s), f"{where}row._mapping[{s!r}] gave {res!r}; columns carrying that name: positions {pos + softpos} (row {exp!r}, keys {keys!r})", observed=repr(res))
